@@ -39,11 +39,11 @@ PROPS = {
     },
     'C04': {
         'correspondence': CORR_L1,
-        'coq': ['theories/Props/C04.vo', 'theories/Inst/C04_now.vo', 'theories/L1h/PropsC04.vo', 'theories/L1h/Inst.vo', 'theories/L1b/PropsLbound.vo', 'theories/L1b/Inst.vo', 'theories/L1z/PropsC04zero.vo', 'theories/L1z/Inst.vo', 'theories/Inst/Fut_now.vo', 'theories/L2/PropsC06.vo', 'theories/L2/Inst.vo', 'theories/Inst/Jobs_now.vo', 'theories/Inst/Wrapper_now.vo'],
+        'coq': ['theories/Props/C04.vo', 'theories/Inst/C04_now.vo', 'theories/L1h/PropsC04.vo', 'theories/L1h/Inst.vo', 'theories/L1b/PropsLbound.vo', 'theories/L1b/Inst.vo', 'theories/L1z/PropsC04zero.vo', 'theories/L1z/Inst.vo', 'theories/Inst/Fut_now.vo', 'theories/L2/PropsC06.vo', 'theories/L2/Inst.vo', 'theories/Inst/Jobs_now.vo', 'theories/Inst/Wrapper_now.vo', 'theories/L2/PropsC04.vo'],
         'profiles': [prof('sync', (80, 20), (2000, 80)), prof('core', (40, 10), (800, 40)), prof('pool', (30, 10), (600, 40)), prof('fut', (40, 15), (800, 60), extra=['--max-pool', '1']), prof('progs:fut_extra.progs', (0, 60), (0, 1500)), prof('progs:susp_extra.progs', (0, 60), (0, 1500)), prof('progs:f6_waiter_takeover.progs', (0, 60), (0, 1500))],
         'monitors': ['C04'], 'liveness': True, 'panics': True,
         'trusted_base': L1_TRUST,
-        'assumptions': ['C04_full (any pool maximum incl. 0) is proved for layer L1 (operations that do not suspend); sync on a queue suspended on a future is covered by L2\'s terminal theorem (pool >= 1) and by the profiles; nested sync from inside jobs is exercised by the profiles, not modelled'],
+        'assumptions': ['C04_full (any pool maximum incl. 0) is proved for layer L1 (operations that do not suspend); sync on a queue suspended on a future: L2 now models the sync_background waiter (kicked flag, claim through the generated t_claim, take-over with the sync-drain frames): C04_sync_returns_L2 - for any program and ANY pool size incl. 0, in a terminal state with all events fired nobody is left inside sync in any of its three modes; C04_needs_waiter_takeover_refuted_L2 = finding F6 (old claim table, witness by vm_compute). Earlier text: L2\'s terminal theorem (pool >= 1) and by the profiles; nested sync from inside jobs is exercised by the profiles, not modelled'],
     },
     'C05': {
         'correspondence': CORR_L1,
@@ -55,8 +55,8 @@ PROPS = {
     },
     'C06': {
         'correspondence': CORR_L2,
-        'coq': ['theories/L2/PropsC06.vo', 'theories/L2/Inst.vo', 'theories/L2/Examples.vo', 'theories/Inst/Fut_now.vo', 'theories/Inst/C04_now.vo', 'theories/L1z/PropsC04zero.vo', 'theories/L1z/Inst.vo'],
-        'profiles': [prof('sweep:wake_sweep.progs', (0, 3), (0, 30)), prof('fut', (60, 15), (1500, 60)), prof('susp', (30, 10), (600, 40)), prof('progs:fut_extra.progs', (0, 60), (0, 1500)), prof('progs:susp_extra.progs', (0, 60), (0, 1500)), prof('progs:f6_waiter_takeover.progs', (0, 60), (0, 1500))],
+        'coq': ['theories/L2/PropsC06.vo', 'theories/L2/Inst.vo', 'theories/L2/Examples.vo', 'theories/Inst/Fut_now.vo', 'theories/Inst/C04_now.vo', 'theories/L1z/PropsC04zero.vo', 'theories/L1z/Inst.vo', 'theories/L2/PropsC04.vo'],
+        'profiles': [prof('sweep:wake_sweep.progs', (0, 3), (0, 30)), prof('fut', (60, 15), (1500, 60)), prof('susp', (30, 10), (600, 40)), prof('progs:fut_extra.progs', (0, 60), (0, 1500)), prof('progs:susp_extra.progs', (0, 60), (0, 1500)), prof('progs:f6_waiter_takeover.progs', (0, 60), (0, 1500)), prof('progs:fsync_pool0.progs', (0, 40), (0, 1000))],
         'monitors': ['C06', 'C03', 'C07', 'C04'], 'liveness': True, 'panics': True,
         'trusted_base': L2_TRUST,
         'assumptions': ['the no-lost-wake invariant (all three runner contexts, any event timing, stale wakers); terminal theorem with >= 1 pool runner (C06_terminal_partial_L2: in a terminal state with all events fired no operation is suspended and nothing is queued); terminal theorem with ZERO pool runners (C06_zero_pool_L2: caller 0 runs desync / awaited or detached future operations, the other callers only fire events: in a terminal state caller 0 has finished; needs zero_cond of the generated tables: poll always takes an idle or pending queue over). Outside the zero-pool theorem: suspend, sync and poll-then-drop on caller 0 (refuted for suspend: C06_zero_pool_needs_side_condition_refuted) - those are exercised by the pool-0 wake sweeps'],
@@ -64,14 +64,14 @@ PROPS = {
     'C07': {
         'correspondence': CORR_L2,
         'coq': ['theories/L2/PropsC07.vo', 'theories/L2/Inst.vo', 'theories/Inst/Fut_now.vo', 'theories/Inst/Jobs_now.vo'],
-        'profiles': [prof('fut', (100, 20), (2500, 60)), prof('sweep:wake_sweep.progs', (0, 2), (0, 12)), prof('progs:fut_extra.progs', (0, 60), (0, 1500))],
+        'profiles': [prof('fut', (100, 20), (2500, 60)), prof('sweep:wake_sweep.progs', (0, 2), (0, 12)), prof('progs:fut_extra.progs', (0, 60), (0, 1500)), prof('progs:fsync_pool0.progs', (0, 40), (0, 1000))],
         'monitors': ['C07', 'C03'], 'liveness': True, 'panics': True,
         'trusted_base': L2_TRUST,
         'assumptions': ['proved (C07_full_L2): a result is resolved at most once, only after the operation signalled, with its own value; no would-panic state is reachable; poll stores the task waker in the critical section in which it found the result missing and signal takes and calls it; the task invariant (Inv_task) holds in every reachable state; and C07_complete_L2: with >= 1 pool runner, in every terminal state with all events fired every actor is done (each awaiting caller has received its result, each pool runner is idle). With zero pool runners: C06_zero_pool_L2. The model is ONE queue; several objects by exploration'],
     },
     'C08': {
         'coq': ['theories/SyncFut/PropsC08.vo', 'theories/Inst/C08_now.vo', 'theories/Inst/Jobs_now.vo'],
-        'profiles': [prof('fsync', (100, 20), (2500, 60)), prof('progs:cancel.progs', (0, 400), (0, 6000)), prof('progs:f6_waiter_takeover.progs', (0, 60), (0, 1500))],
+        'profiles': [prof('fsync', (100, 20), (2500, 60)), prof('progs:cancel.progs', (0, 400), (0, 6000)), prof('progs:f6_waiter_takeover.progs', (0, 60), (0, 1500)), prof('progs:fsync_pool0.progs', (0, 40), (0, 1000))],
         'correspondence': {'kind': 'syncfut', 'profiles': [prof('fsync', (60, 5), (600, 10)), prof('progs:syncfut_extra.progs', (0, 10), (0, 60)), prof('progs:cancel.progs', (0, 10), (0, 60))]},
         'monitors': ['C08', 'C01', 'C02', 'C05'], 'liveness': True, 'panics': True,
         'trusted_base': ['SyncFut model (coq/theories/SyncFut/Model.v): hand-written; the queue abstracted as one-at-a-time FIFO execution with the slot job and other operations possibly suspended (justified by C01/C02), the queue runner excluded while the polling task drains (justified by the ownership invariant); tied by translator facts, by the replay of logged executions of the real crate on the extracted model (driver/syncfut/replay_syncfut.ml: every oneshot operation, result-cell section and harness marker must be an enabled model step with the same label and poll result, and the final order of observables must equal the model\'s ghost log) and by the run-time oracles'],
@@ -80,7 +80,7 @@ PROPS = {
     'C09': {
         'correspondence': CORR_L1,
         'coq': ['theories/Props/C09.vo', 'theories/Inst/C09_now.vo', 'theories/Inst/Wrapper_now.vo'],
-        'profiles': [prof('try', (80, 20), (2000, 80)), prof('sweep:overlap_sweep.progs', (0, 2), (0, 12)), prof('progs:try_extra.progs', (0, 60), (0, 1500))],
+        'profiles': [prof('try', (80, 20), (2000, 80)), prof('sweep:overlap_sweep.progs', (0, 2), (0, 12)), prof('progs:try_extra.progs', (0, 60), (0, 1500)), prof('progs:fsync_pool0.progs', (0, 40), (0, 1000))],
         'monitors': ['C09'], 'liveness': True, 'panics': False,
         'trusted_base': L1_TRUST,
         'assumptions': [],
@@ -102,7 +102,7 @@ PROPS = {
         'assumptions': ['the Desync object is abstracted as ObjExec (exclusive FIFO execution); a processing future that suspends is one step'],
     },
     'C12': {
-        'correspondence': {'kind': 'pipe', 'profiles': [prof('pipe', (40, 5), (400, 10)), prof('progs:pipe_extra.progs', (0, 4), (0, 30))]},
+        'correspondence': {'kind': 'pipe', 'profiles': [prof('pipe', (40, 5), (400, 10)), prof('progs:pipe_extra.progs', (0, 4), (0, 30)), prof('progs:pipe_yield.progs', (0, 8), (0, 60)), prof('progs:pipe_lastowner.progs', (0, 8), (0, 60))]},
         'coq': ['theories/Pipe/PropsC12.vo', 'theories/Inst/C12_now.vo', 'theories/Inst/Fut_now.vo'],
         'profiles': [prof('pipe', (80, 20), (1500, 60), extra=['--max-steps', '30000']), prof('progs:pipe_yield.progs', (0, 60), (0, 1500), extra=['--max-steps', '30000'])],
         'monitors': ['C12', 'C01', 'C05'], 'liveness': True, 'panics': True,
@@ -110,7 +110,7 @@ PROPS = {
         'assumptions': ['the Desync object is abstracted as ObjExec; the processing future is one step; depth 0 is excluded (it wedges the pipe by design of the code: nothing is read while pending.len() >= 0)'],
     },
     'C16': {
-        'correspondence': {'kind': 'pipe', 'profiles': [prof('pipedrop', (40, 5), (400, 10)), prof('progs:pipe_extra.progs', (0, 4), (0, 30))]},
+        'correspondence': {'kind': 'pipe', 'profiles': [prof('pipedrop', (40, 5), (400, 10)), prof('progs:pipe_extra.progs', (0, 4), (0, 30)), prof('progs:pipe_yield.progs', (0, 8), (0, 60)), prof('progs:pipe_lastowner.progs', (0, 8), (0, 60))]},
         'coq': ['theories/Pipe/PropsC16.vo', 'theories/Inst/C16_now.vo', 'theories/Inst/Fut_now.vo'],
         'profiles': [prof('pipedrop', (80, 25), (1500, 80), extra=['--max-steps', '30000']), prof('progs:pipe_lastowner.progs', (0, 100), (0, 2000), extra=['--max-steps', '30000'])],
         'monitors': ['C16', 'C12', 'C05'], 'liveness': True, 'panics': True,
